@@ -24,8 +24,13 @@ class Clock:
         self.frozen = False
         self.last = BASE
         self.aliased_results = []
+        self.lock = None                # the server lock: every clock reading of the command path is taken while it is held
+        self.unlocked = []              # what happened outside the lock that must happen inside (clock readings, deliveries to other connections)
+        self.tl = threading.local()     # .current: the socket whose request this thread is processing
 
     def time(self):
+        if self.lock is not None and not self.frozen and not self.lock.locked():
+            self.unlocked.append('the clock was read while the server lock was not held')
         if self.frozen:
             return self.last / 1e7
         self.n += 1
@@ -86,6 +91,21 @@ def make_socket_class(clock, rnd):
         def _decode_error(self, error):
             return RawError(error.value)
 
+        def _process_command(self, fields):
+            prev = getattr(clock.tl, 'current', None)
+            clock.tl.current = self
+            try:
+                return FS.FakeSocket._process_command(self, fields)
+            finally:
+                clock.tl.current = prev
+
+        def put_response(self, msg):
+            # a reply or message handed to ANOTHER connection (PUBLISH deliveries) belongs to the critical section of the command that causes it
+            cur = getattr(clock.tl, 'current', None)
+            if cur is not None and cur is not self and clock.lock is not None and not clock.lock.locked():
+                clock.unlocked.append('a message was handed to another connection after the server lock had been released')
+            return FS.FakeSocket.put_response(self, msg)
+
         def _decode_result(self, result):
             # runs after the server lock was released: the command's result must not be a container that is stored in a database
             if isinstance(result, (list, dict, set)) and self._server is not None:
@@ -113,6 +133,7 @@ class Impl:
         FS.random = self.rnd
         self.srv = fakeredis.FakeServer(version=version)
         self.srv.lastsave = 0
+        self.clock.lock = self.srv.lock
         self.fake_condition = fake_condition
         if fake_condition:
             orig = self.srv.dbs.default_factory
